@@ -89,6 +89,42 @@ def request(func, y, args, G=None):
     if n == "_dSIR_compact_effective_degree_":
         N, tau, gamma = args
         return dict(op="rhs", model="sirCompactED", p=P(tau, gamma, N, y[-2], y[-1]), v=[fr_list(y[:-2])])
+    if n == "_dSIS_heterogeneous_pairwise_":
+        Nk, NkNl, tau, gamma, Ks = args
+        K = len(Ks)
+        return dict(op="rhs", model="sisHetPW", p=P(tau, gamma),
+                    v=[fr_list(Ks), fr_list(Nk), fr_list(NkNl), fr_list(y[:K]), fr_list(y[K:K + K * K]), fr_list(y[K + K * K:])])
+    if n == "_dSIR_heterogeneous_pairwise_":
+        tau, gamma, Nk, Ks = args
+        K = len(Ks)
+        return dict(op="rhs", model="sirHetPW", p=P(tau, gamma),
+                    v=[fr_list(Ks), fr_list(y[:K]), fr_list(y[K:2 * K]), fr_list(y[2 * K:2 * K + K * K]), fr_list(y[2 * K + K * K:])])
+    if n == "_dSIS_effective_degree_":
+        shape, tau, gamma = args
+        A, B = shape
+        return dict(op="rhs", model="sisEffDeg", p=P(tau, gamma), v=[fr_list(y[:A * B]), fr_list(y[A * B:])], A=A, B=B)
+    if n == "_dSIR_effective_degree_":
+        N, shape, tau, gamma = args
+        A, B = shape
+        return dict(op="rhs", model="sirEffDeg", p=P(tau, gamma, N, y[-1]), v=[fr_list(y[:-1])], A=A, B=B)
+    if n in ("_dSIS_pair_based_", "_dSIR_pair_based_"):
+        G_, nodelist, index_of_node, trf, rrf = args
+        nl = list(nodelist)
+        N = len(nl)
+        adj = [[index_of_node[v] for v in G_.neighbors(u)] for u in nl]
+        tr = [[rs(F(float(trf(u, v)))) for v in G_.neighbors(u)] for u in nl]
+        rr = [rs(F(float(rrf(u)))) for u in nl]
+        if n == "_dSIS_pair_based_":
+            return dict(op="rhs", model="sisPairBased", p=[], v=[rr, fr_list(y[:N]), fr_list(y[N:N + N * N]), fr_list(y[N + N * N:])],
+                        adj=adj, tr=tr)
+        return dict(op="rhs", model="sirPairBased", p=[], v=[rr, fr_list(y[:N]), fr_list(y[N:2 * N]), fr_list(y[2 * N:2 * N + N * N]),
+                                                                 fr_list(y[2 * N + N * N:])], adj=adj, tr=tr)
+    if n == "_dEBCM_pref_mix_":
+        rho, tau, gamma, Pk, Pnk = args
+        ks = sorted(Pk.keys())
+        return dict(op="rhs", model="ebcmPrefMix", p=P(rho, tau, gamma, y[0]), ks=ks,
+                    v=[fr_list([Pk[k] for k in ks]), fr_list([Pnk[a].get(b, 0) if a in Pnk else 0 for a in ks for b in ks]),
+                       fr_list([y[1 + 2 * i] for i in range(len(ks))]), fr_list([y[2 + 2 * i] for i in range(len(ks))])])
     if n in ("_dSIS_individual_based_", "_dSIR_individual_based_"):
         G_, nodelist, index_of_node, trf, rrf = args
         nl = list(nodelist)
